@@ -802,3 +802,17 @@ Lemma complete_profile_b alts p : forallb (complete_onb alts) p = true -> Forall
 Proof.
   rewrite forallb_forall, Forall_forall. intros H o Ho. apply complete_onb_correct. now apply H.
 Qed.
+
+(* small monotonicity facts for the deletion / partition packages (C12, C18) *)
+Lemma SPw_axis_incl p p' axis : incl p' p -> SPw_axis p axis -> SPw_axis p' axis.
+Proof. intros Hi H o Ho. apply H. now apply Hi. Qed.
+
+Lemma SPw_incl alts p p' : incl p' p -> SPw alts p -> SPw alts p'.
+Proof. intros Hi (axis & Hp & H). exists axis. split; [assumption|]. eapply SPw_axis_incl; eauto. Qed.
+
+Lemma SPw_axis_restrict S p axis :
+  SPw_axis p axis -> SPw_axis (map (restrict_order S) p) (filter (fun a => memN a S) axis).
+Proof.
+  intros H o' Ho'. apply in_map_iff in Ho'. destruct Ho' as (o & <- & Ho).
+  apply sp_on_axis_restrict. now apply H.
+Qed.
